@@ -70,6 +70,15 @@ def run(ctx):
                         ctx.mark_nontrivial(("split", W, tuple(Ts)))
         # (b) end to end
         runs = e2e.cached_runs(ctx, e2e.standard_grid(ctx.seed, ctx.thorough), "std")
+        # series of exactly W rows (one stacked window) and W+1 rows inside joint runs, in every position
+        short = []
+        for j, W in enumerate([1, 2, 3, 4, 5]):
+            for pos in range(3):
+                lengths = [40 + 3 * j, 35, 30]
+                lengths[pos] = W if (j + pos) % 2 == 0 else W + 1
+                short.append({"N": 1 + j % 2, "W": W, "K": 2, "beta": 2.0, "lam": 0.11, "limit": 2, "m": 2, "biased": False, "eps": 0, "joint": True,
+                              "lengths": lengths, "data_seed": 700 + 10 * j + pos, "rng_seed": 700 + j, "regimes": 2})
+        runs = runs + e2e.cached_runs(ctx, short if ctx.thorough else short[::2], "c04short")
         # a tiny in-process run keeps the front-end lines under the tracer even on a cache hit
         e2e.traced_run({"N": 1, "W": 2, "K": 2, "beta": 1.0, "lengths": [30], "limit": 1, "m": 1, "data_seed": 1, "rng_seed": 1, "joint": False})
         e2e.traced_run({"N": 1, "W": 2, "K": 2, "beta": 1.0, "lengths": [30, 25], "limit": 1, "m": 1, "data_seed": 1, "rng_seed": 1, "joint": True})
